@@ -168,3 +168,119 @@ def store_tobytes(C, self):
     from pyvc.extern import BBytes, _sel2b
     a, n = V.bit, V.n
     return BBytes(nbytes, lambda i: _sel2b(i < n, a, i))
+
+
+# ---------------------------------------------------------------------------------------
+# concatenation, copy, comparison, counting, bit-wise operators (C01, C08, C13, C16)
+# ---------------------------------------------------------------------------------------
+def _two_store_shapes(self_states=STORE_STATES, other_states=STORE_STATES, alias=True):
+    out = []
+    for a in self_states:
+        for b in other_states:
+            def build(S, interp, a=a, b=b):
+                return [m_store(S, interp, 'self', a), m_store(S, interp, 'other', b)], {}
+
+            def real(vals, a=a, b=b):
+                return [r_store(vals, 'self', a), r_store(vals, 'other', b)], {}
+            out.append(Shape(f'{a}+{b}', build, real))
+        if alias:
+            def build(S, interp, a=a):
+                s = m_store(S, interp, 'self', a)
+                return [s, s], {}
+
+            def real(vals, a=a):
+                s = r_store(vals, 'self', a)
+                return [s, s], {}
+            out.append(Shape(f'{a}+self', build, real))
+    return out
+
+
+@contract('bitstore.BitStore.__iadd__', shapes=_two_store_shapes(self_states=('plain',)), props={'C01', 'C03', 'C08'},
+          kind='internal', note="in-place append of the *logical* content of other; returns self")
+def store_iadd(C, self, other):
+    V = spec.cat(store_bits(self), store_bits(other))
+    self.attrs['_bitarray']._write(C.interp, V.n, V.bit)
+    return self
+
+
+@contract('bitstore.BitStore.__add__', shapes=_two_store_shapes(), props={'C01', 'C08'}, kind='internal',
+          note="a fresh store holding the logical content of self followed by that of other; operands unchanged")
+def store_add(C, self, other):
+    return spec.mk_store(C, spec.cat(store_bits(self), store_bits(other)))
+
+
+@contract('bitstore.BitStore.__eq__', shapes=_two_store_shapes(), props={'C08', 'C13'}, kind='public',
+          note="stores are equal iff their logical contents are (same length, same bits)")
+def store_eq(C, self, other):
+    from pyvc.extern import view_eq
+    return view_eq(store_bits(self), store_bits(other))
+
+
+def _bitop(op):
+    def f(C, self, other):
+        V, W = store_bits(self), store_bits(other)
+        if sym.truth(lnot(sym.eq(V.n, W.n))):
+            C.throw('ValueError')
+        return spec.mk_store(C, spec.pointwise(op, V, W))
+    return f
+
+
+for _op in ('and', 'or', 'xor'):
+    contract(f'bitstore.BitStore.__{_op}__', shapes=_two_store_shapes(), props={'C08', 'C16'}, kind='public',
+             note=f"per-bit {_op} of the logical contents of equal length; ValueError otherwise; operands unchanged")(_bitop(_op))
+
+
+def _ibitop(op):
+    def f(C, self, other):
+        V, W = store_bits(self), store_bits(other)
+        if sym.truth(lnot(sym.eq(V.n, W.n))):
+            C.throw('ValueError')
+        R = spec.pointwise(op, V, W)
+        self.attrs['_bitarray']._write(C.interp, R.n, R.bit)
+        return self
+    return f
+
+
+for _op in ('and', 'or', 'xor'):
+    contract(f'bitstore.BitStore.__i{_op}__', shapes=_two_store_shapes(self_states=('plain',)), props={'C03', 'C08', 'C16'},
+             kind='internal', note=f"in-place per-bit {_op}; ValueError (and self unchanged) for unequal lengths")(_ibitop(_op))
+
+
+@contract('bitstore.BitStore.count', shapes=_store_shapes(lambda S, d: [d['v']], lambda v, d: [d['v']], [{'v': 0}, {'v': 1}]),
+          props={'C07', 'C08'}, kind='public', note="number of bits equal to value within the logical length")
+def store_count(C, self, value):
+    from pyvc.extern import count_ones
+    V = store_bits(self)
+    c = count_ones(V)
+    return c if value else V.n - c
+
+
+@contract('bitstore.BitStore.any_set', shapes=_store_shapes(), props={'C07', 'C08'}, kind='public')
+def store_any(C, self):
+    from pyvc.extern import any_set
+    return any_set(store_bits(self))
+
+
+@contract('bitstore.BitStore.all_set', shapes=_store_shapes(), props={'C07', 'C08'}, kind='public')
+def store_all(C, self):
+    from pyvc.extern import all_set
+    return all_set(store_bits(self))
+
+
+@contract('bitstore.BitStore.copy', shapes=_store_shapes(), props={'C04', 'C08'}, kind='internal', relational=True,
+          note="an immutable store may be shared (returns self); a mutable one is copied to a fresh store")
+def store_copy_post(C, args, kwargs, out):
+    self = args[0]
+    if out.kind == 'exc':
+        yield ('raises', False, out.value.cls.name)
+        return
+    r = out.value
+    if self.attrs['immutable']:
+        yield ('shared-iff-immutable', r is self)
+    else:
+        yield ('fresh', r is not self and r.attrs['_bitarray'] is not self.attrs['_bitarray'])
+        from pyvc.contract import Goals, same
+        g = Goals()
+        same(r, spec.mk_store(C, store_bits(self)), 'result', g)
+        for it in g.items:
+            yield it
